@@ -1091,6 +1091,8 @@ class Engine:
         r = models.named_const(self, c, path)
         if r is not None:
             return r
+        if re.fullmatch(r'[A-Z][A-Za-z0-9]*', segs[-1]) and not segs[-1].isupper():
+            return Agg([], ty=segs[-1])        # unit struct value (e.g. `SplitLinebreaksFilter`)
         raise Unsupported('const ' + c)
 
     def unit_variant(self, ty, var):
